@@ -60,10 +60,17 @@ static std::string blk_where(const AllocLedger::Blk &b) {
   }
   return out;
 }
+static void report_fail_site() {
+  // where the injected failure landed (one backtrace per execution: cheap); part of every C14 violation report
+  AllocLedger::Blk b; b.size = 0; b.index = g_alloc.calls; b.nbt = backtrace(b.bt, 10);
+  g_alloc.fail_site = blk_where(b);
+  if (g_alloc_bt < 0) g_alloc_bt = getenv("SIM_ALLOC_BT") ? 1 : 0;
+  if (g_alloc_bt) fprintf(stderr, "ALLOCFAIL #%ld in %s\n", g_alloc.calls, g_alloc.fail_site.c_str());
+}
 static void *l_malloc(size_t n) {
   if (g_alloc.active) {
     g_alloc.calls++;
-    if (g_alloc.fail_at > 0 && g_alloc.calls == g_alloc.fail_at) { g_alloc.failed++; return nullptr; }
+    if (g_alloc.fail_at > 0 && g_alloc.calls == g_alloc.fail_at) { g_alloc.failed++; report_fail_site(); return nullptr; }
   }
   void *p = malloc(n ? n : 1);
   if (p && g_alloc.active) blk_fill(g_alloc.live[p], n);
@@ -81,7 +88,7 @@ static void l_free(void *p) {
 static void *l_realloc(void *p, size_t n) {
   if (g_alloc.active) {
     g_alloc.calls++;
-    if (g_alloc.fail_at > 0 && g_alloc.calls == g_alloc.fail_at) { g_alloc.failed++; return nullptr; }
+    if (g_alloc.fail_at > 0 && g_alloc.calls == g_alloc.fail_at) { g_alloc.failed++; report_fail_site(); return nullptr; }
   }
   void *q = realloc(p, n ? n : 1);
   if (q && g_alloc.active) { if (p) g_alloc.live.erase(p); blk_fill(g_alloc.live[q], n); }
